@@ -203,6 +203,19 @@ def check_C19(ctx):
             ctx.violation("c19_grad", line, 0, r[0], r[1], r[2])
         k = f"conn{me['conn']}/{me['mode']}"
         hist[k] = hist.get(k, 0) + 1
+    scs10 = gen_base.gen_k10(ctx.rng("k10"), 400 if ctx.quick else 4000)
+    m10, impl10, lines10 = ctx.correspond("K8c val_clamp on whole tensors (entries above 1 and below 0 at once) vs torch.autograd", scs10, nontrivial=lambda s, mo: True)
+    for sc, line, o in zip(scs10, lines10, impl10[0]):
+        oo = sx.loads(o)
+        if oo and oo[0] == -900:
+            ctx.violation("c19_tensor", line, 0, "no exception", f"raised error class {oo[1]}", None)
+            continue
+        for j, (x, r) in enumerate(zip(sc[1], oo)):
+            xv, xt = sx.q(x[0]), sx.q(x[1])
+            if sx.q(r[0]) != clamp(xv) or sx.q(r[1]) != xt:
+                ctx.violation("c19_tensor", line, 0, f"val_clamp of the tensor {[str(sx.q(y[0])) for y in sc[1]]}: entry {j} = min(1, max(0, {xv})) = {clamp(xv)} with derivative 1 (tangent {xt})", f"value {sx.q(r[0])} tangent {sx.q(r[1])}", None)
+                break
+    hist["tensor-level/val_clamp"] = len(scs10)
     scs9, meta9 = gen_base.gen_k9(ctx.rng("k9"), 400 if ctx.quick else 4000)
     m9, impl9, lines9 = ctx.correspond("K8b formula-level stored bounds & gradients (connective formulae, Forall / Exists over them) vs torch.autograd", scs9,
                                        per_proc=100, nontrivial=lambda s, mo: True)
@@ -218,7 +231,7 @@ def check_C19(ctx):
     ctx.assumptions.append("torch detach() has zero tangent (dual-number reading of autograd) - tied by exact comparison with torch.autograd.grad on every scenario")
     return ctx.finish("proof", pr, st, rule="K8: random dyadic values in [-8,8] for bias/weights/inputs (weights incl. 0 and negative), bias chosen so the "
                       "pre-activation is unsaturated / saturated high / saturated low / arbitrary; direction = unit seed (one partial derivative) or random small integer vector; "
-                      "distinct = distinct scenario text; K8b: And/Or/Implies formulae built through the public API with the library's default activation (dyadic bias/weights), "
+                      "distinct = distinct scenario text; K8c: val_clamp on tensors of 1-6 dyadic entries mixing values inside [0,1], above 1 and below 0; K8b: And/Or/Implies formulae built through the public API with the library's default activation (dyadic bias/weights), "
                       "alone or under a fully quantified Forall / Exists over 1-4 groundings with mixed / near-TRUE / near-FALSE facts; after Model.upward() the stored bound and its directional derivative "
                       "w.r.t. (bias, weights) are compared exactly with the dual-number model and with an independent oracle (unclamped chain of linear forms)")
 
